@@ -247,8 +247,30 @@ func (p *c01) RunCase(ctx *runner.Ctx) runner.CaseResult {
 	ops := []adapt.Op{}
 	kinds := []string{}
 	dec := [][2]int{}
+	// a third of the histories run on a table that also has an index over the table's OWN key attributes, which
+	// is dropped in the middle of the history (and sometimes re-created later): the key -> item map must not care
+	dropAt, recreateAt := -1, -1
+	inv := adapt.IndexSpec{Name: "inv", Hash: spec.Hash, HashT: spec.HashT, Range: "a"}
+	if spec.Range != "" {
+		inv = adapt.IndexSpec{Name: "inv", Hash: spec.Range, HashT: spec.RangeT, Range: spec.Hash, RangeT: spec.HashT}
+	}
+	if idx%3 == 2 {
+		spec.Indexes = append(spec.Indexes, inv)
+		dropAt = 5 + r.Intn(n-10)
+		if r.Intn(2) == 0 {
+			recreateAt = dropAt + 1 + r.Intn(n-dropAt-1)
+		}
+		x.r.Counters["histories_with_index_drop"]++
+	}
 	opts := mon.GenOpts{MaxDepth: 2, NoEmptyLM: true}
 	for i := 0; i < n; i++ {
+		if i == dropAt {
+			ops = append(ops, adapt.Op{Kind: adapt.OpUpdateTable, Table: spec.Name, Chg: []adapt.IndexChange{{Delete: "inv"}}})
+		}
+		if i == recreateAt {
+			c := inv
+			ops = append(ops, adapt.Op{Kind: adapt.OpUpdateTable, Table: spec.Name, Chg: []adapt.IndexChange{{Create: &c}}})
+		}
 		ki := r.Intn(len(keys))
 		k := alt(keys[ki])
 		t := r.Intn(c01Templates)
